@@ -29,6 +29,7 @@ const (
 	bNum           // a numeric parameter (height, counter)
 	bBool          // concrete boolean
 	bLen           // len of a sequence (symbolic); nonEmpty says whether it is certainly > 0
+	bStruct        // a record of byte-string values (a table row naming the prefixes of one queue)
 )
 
 type bval struct {
@@ -43,6 +44,7 @@ type bval struct {
 	nonEmpty bool
 	lenOf    Shape
 	why      string
+	fields   map[string]bval
 }
 
 func unknownVal(why string) bval { return bval{k: bUnknown, why: why} }
@@ -412,6 +414,10 @@ func (bi *binterp) expr(fr *bframe, e ast.Expr) bval {
 			if q == bi.kt.SepVar {
 				return bval{k: bSeq, seq: Shape{{Kind: "Sep", Par: -1}}}
 			}
+			// a package-level table row: its initialiser is evaluated where it is declared
+			if v, ok := bi.globalInit(pv); ok {
+				return v
+			}
 		}
 		return unknownVal("identifier " + x.Name)
 	case *ast.SelectorExpr:
@@ -424,6 +430,17 @@ func (bi *binterp) expr(fr *bframe, e ast.Expr) bval {
 			if q == bi.kt.SepVar {
 				return bval{k: bSeq, seq: Shape{{Kind: "Sep", Par: -1}}}
 			}
+			if v, ok := bi.globalInit(o); ok {
+				return v
+			}
+		}
+		// a field of a record of byte strings
+		if sel, ok := info.Selections[x]; ok && sel.Kind() == types.FieldVal {
+			if rv := bi.expr(fr, x.X); rv.k == bStruct {
+				if fv, ok := rv.fields[x.Sel.Name]; ok {
+					return fv
+				}
+			}
 		}
 		return unknownVal("selector " + types.ExprString(x))
 	case *ast.CompositeLit:
@@ -435,6 +452,20 @@ func (bi *binterp) expr(fr *bframe, e ast.Expr) bval {
 					return unknownVal("keyed literal")
 				}
 				out.list = append(out.list, bi.expr(fr, el))
+			}
+			return out
+		}
+		if _, ok := T.Underlying().(*types.Struct); ok {
+			out := bval{k: bStruct, fields: map[string]bval{}}
+			st := T.Underlying().(*types.Struct)
+			for i, el := range x.Elts {
+				if kv, isKV := el.(*ast.KeyValueExpr); isKV {
+					if id, ok := kv.Key.(*ast.Ident); ok {
+						out.fields[id.Name] = bi.expr(fr, kv.Value)
+					}
+				} else if i < st.NumFields() {
+					out.fields[st.Field(i).Name()] = bi.expr(fr, el)
+				}
 			}
 			return out
 		}
@@ -727,6 +758,91 @@ func (bi *binterp) callExpr(fr *bframe, x *ast.CallExpr) bval {
 		return unknownVal("call of " + name)
 	}
 	return unknownVal("call " + types.ExprString(x))
+}
+
+// globalInit evaluates the initialiser of a package-level variable of package types (never reassigned: a table row).
+func (bi *binterp) globalInit(v *types.Var) (bval, bool) {
+	if bi.depth > 8 {
+		return bval{}, false
+	}
+	for _, f := range bi.p.Funcs {
+		if f.Pkg == nil || f.Pkg.Types != v.Pkg() {
+			continue
+		}
+		for _, file := range f.Pkg.Syntax {
+			for _, d := range file.Decls {
+				gd, ok := d.(*ast.GenDecl)
+				if !ok || gd.Tok != token.VAR {
+					continue
+				}
+				for _, sp := range gd.Specs {
+					vs := sp.(*ast.ValueSpec)
+					for i, id := range vs.Names {
+						if f.Pkg.TypesInfo.Defs[id] != types.Object(v) || i >= len(vs.Values) || len(vs.Names) != len(vs.Values) {
+							continue
+						}
+						if _, isStruct := v.Type().Underlying().(*types.Struct); !isStruct {
+							return bval{}, false
+						}
+						if bi.p.globalReassigned(v) {
+							return bval{}, false
+						}
+						bi.depth++
+						fr := &bframe{f: f, env: map[types.Object]bval{}}
+						out := bi.expr(fr, vs.Values[i])
+						bi.depth--
+						return out, out.k == bStruct
+					}
+				}
+			}
+		}
+		break
+	}
+	return bval{}, false
+}
+
+// globalReassigned: some function of the module assigns to the package-level variable (or takes its address).
+func (p *Prog) globalReassigned(v *types.Var) bool {
+	for _, f := range p.Funcs {
+		if f.Body == nil || f.Pkg == nil || f.Pkg.Types != v.Pkg() {
+			continue
+		}
+		info := f.Pkg.TypesInfo
+		hit := false
+		ast.Inspect(f.Body, func(n ast.Node) bool {
+			switch s := n.(type) {
+			case *ast.AssignStmt:
+				for _, l := range s.Lhs {
+					root := ast.Unparen(l)
+					for {
+						if se, ok := root.(*ast.SelectorExpr); ok {
+							root = ast.Unparen(se.X)
+							continue
+						}
+						if ie, ok := root.(*ast.IndexExpr); ok {
+							root = ast.Unparen(ie.X)
+							continue
+						}
+						break
+					}
+					if id, ok := root.(*ast.Ident); ok && info.Uses[id] == types.Object(v) {
+						hit = true
+					}
+				}
+			case *ast.UnaryExpr:
+				if s.Op == token.AND {
+					if id, ok := ast.Unparen(s.X).(*ast.Ident); ok && info.Uses[id] == types.Object(v) {
+						hit = true
+					}
+				}
+			}
+			return !hit
+		})
+		if hit {
+			return true
+		}
+	}
+	return false
 }
 
 func isIntLike(v bval) bool { return v.k == bInt || v.k == bLen || v.k == bNum || v.k == bUnknown }
